@@ -469,6 +469,10 @@ func (c *Ctx) checkDeterministic() {
 							}
 						} else if callee.Pkg != nil && forbiddenPkg[callee.Pkg.Pkg.Path()] {
 							bad = append(bad, c.posStr(in.Pos())+": call of "+callee.String())
+						} else if callee.String() == "(*sync.Pool).Get" {
+							// recycled storage carries whatever the previous key left in it; that every byte read was
+							// overwritten first is not something this rule can establish
+							bad = append(bad, c.posStr(in.Pos())+": storage recycled through sync.Pool in "+c.fname(f)+" (its content depends on the keys hashed before)")
 						}
 					case *ssa.MakeClosure:
 						if f2, ok := in.Fn.(*ssa.Function); ok {
